@@ -147,12 +147,12 @@ def check_list(exprs, stats=None):
                 else:
                     r = refute_01(s)
                     if r is not None:
-                        out.append(("flag-source-not-01", "%s: source has value 0x%x under %s" % (e, r[1], r[0])))
+                        out.append(("flag-source-not-01:%s" % getattr(d, "name", "mem"), "%s: source has value 0x%x under %s" % (e, r[1], r[0])))
             else:
-                out.append(("src-dst-width", "%s: destination width %d, source width %d" % (e, dw, sw)))
+                out.append(("src-dst-width:%s:%d<-%d" % (getattr(d, "name", "mem"), dw, sw), "%s: destination width %d, source width %d" % (e, dw, sw)))
         if dc == "ExprId":
             if d.name in written_ids:
-                out.append(("double-write", "%s is assigned twice (%s and %s)" % (d.name, written_ids[d.name], s)))
+                out.append(("double-write:%s" % d.name, "%s is assigned twice (%s and %s)" % (d.name, written_ids[d.name], s)))
             written_ids[d.name] = s
         else:
             b, o = base_off(d.arg)
